@@ -299,11 +299,13 @@ def write_dir(d, recs, plt=()):
 
 # ---------------------------------------------------------------- parsers -------------
 UNIT = {"ns": 1, "us": 1000, "ms": 10 ** 6, "s": 10 ** 9, "m": 60 * 10 ** 9}
-RLINE = re.compile(r"^\s*(?:(\d+)\.(\d{3}) (ns|us|ms| s| m))?\s+(\d+)\.(\d{9}) \|( *)(.*)$")
+RLINE = re.compile(r"^\s*(?:(\d+)\.(\d{3}) (ns|us|ms| s| m))?\s*(?:\[\s*(\d+)\])?\s+(\d+)\.(\d{9}) \|( *)(.*)$")
+TID0 = 100
 
 
-def parse_replay(text):
-    """`replay -f duration,time` -> tokens E:depth:fn:time / X:… (a folded leaf gives both)"""
+def parse_replay(text, multi=False):
+    """`replay -f duration,[tid,]time` -> tokens E:depth:fn:time / X:… (a folded leaf gives both);
+    multi: each token is prefixed with "<task index>/" """
     out = []
     stack = []
     for line in text.split("\n"):
@@ -320,51 +322,55 @@ def parse_replay(text):
         dur = None
         if m.group(1) is not None:
             dur = (int(m.group(1)) * 1000 + int(m.group(2))) * UNIT[m.group(3).strip()] // 1000
-        ts = int(m.group(4)) * 10 ** 9 + int(m.group(5))
-        depth = len(m.group(6)) // 2
-        body = m.group(7)
+        pre = ("%d/" % (int(m.group(4)) - TID0)) if (multi and m.group(4)) else ""
+        ts = int(m.group(5)) * 10 ** 9 + int(m.group(6))
+        depth = len(m.group(7)) // 2
+        body = m.group(8)
         mm = re.match(r"^(\S+)\(\) \{$", body)
         if mm:
-            out.append("E:%d:%d:%d" % (depth, FIDX.get(mm.group(1), 99), ts))
+            out.append(pre + "E:%d:%d:%d" % (depth, FIDX.get(mm.group(1), 99), ts))
             continue
         mm = re.match(r"^\} /\* (\S+) \*/$", body)
         if mm:
-            out.append("X:%d:%d:%d" % (depth, FIDX.get(mm.group(1), 99), ts))
+            out.append(pre + "X:%d:%d:%d" % (depth, FIDX.get(mm.group(1), 99), ts))
             continue
         mm = re.match(r"^(\S+)\(\);$", body)
         if mm:
             fn = FIDX.get(mm.group(1), 99)
-            out.append("E:%d:%d:%d" % (depth, fn, ts))
-            out.append("X:%d:%d:%d" % (depth, fn, ts + (dur or 0)))
+            out.append(pre + "E:%d:%d:%d" % (depth, fn, ts))
+            out.append(pre + "X:%d:%d:%d" % (depth, fn, ts + (dur or 0)))
             continue
         out.append("?" + body[:60])
     return out
 
 
-def parse_script(text):
+def parse_script(text, multi=False):
     out = []
     for line in text.split("\n"):
-        m = re.match(r"^([EX]):(\d+):(\S+):(\d+)$", line)
+        m = re.match(r"^([EX]):(\d+):(\S+):(\d+):(\d+)$", line)
         if m:
-            out.append("%s:%s:%d:%s" % (m.group(1), m.group(2), FIDX.get(m.group(3), 99), m.group(4)))
+            pre = ("%d/" % (int(m.group(5)) - TID0)) if multi else ""
+            out.append(pre + "%s:%s:%d:%s" % (m.group(1), m.group(2), FIDX.get(m.group(3), 99), m.group(4)))
         elif line.strip():
             out.append("?" + line.strip()[:60])
     return out
 
 
-def parse_chrome(text):
+def parse_chrome(text, multi=False):
     out = []
-    for m in re.finditer(r'\{"ts":(\d+)\.(\d{3}),"ph":"([BE])","pid":\d+,"name":"([^"]*)"', text):
-        out.append("%s:%d:%d" % ("E" if m.group(3) == "B" else "X", FIDX.get(m.group(4), 99),
-                                 int(m.group(1)) * 1000 + int(m.group(2))))
+    for m in re.finditer(r'\{"ts":(\d+)\.(\d{3}),"ph":"([BE])","pid":(\d+),(?:"tid":(\d+),)?"name":"([^"]*)"', text):
+        pre = ("%d/" % (int(m.group(5) or m.group(4)) - TID0)) if multi else ""
+        out.append(pre + "%s:%d:%d" % ("E" if m.group(3) == "B" else "X", FIDX.get(m.group(6), 99),
+                                       int(m.group(1)) * 1000 + int(m.group(2))))
     return out
 
 
-def parse_dumpraw(text):
+def parse_dumpraw(text, multi=False):
     out = []
-    for m in re.finditer(r"^(\d+)\.(\d{9})\s+\d+: \[(entry|exit )\] (\S+)\([0-9a-f]+\) depth: (\d+)", text, re.M):
-        out.append("%s:%d:%d" % ("E" if m.group(3) == "entry" else "X", FIDX.get(m.group(4), 99),
-                                 int(m.group(1)) * 10 ** 9 + int(m.group(2))))
+    for m in re.finditer(r"^(\d+)\.(\d{9})\s+(\d+): \[(entry|exit )\] (\S+)\([0-9a-f]+\) depth: (\d+)", text, re.M):
+        pre = ("%d/" % (int(m.group(3)) - TID0)) if multi else ""
+        out.append(pre + "%s:%d:%d" % ("E" if m.group(4) == "entry" else "X", FIDX.get(m.group(5), 99),
+                                       int(m.group(1)) * 10 ** 9 + int(m.group(2))))
     return out
 
 
@@ -428,14 +434,14 @@ def parse_graph(text):
 
 # ------------------------------------------------------- projections of a shown sequence
 def proj_calls(tokens):
-    """E/X:fn:time without the display depth (what dump shows)"""
+    """[task/]E/X:fn:time without the display depth (what dump shows)"""
     return [t if t.startswith("?") else "%s:%s:%s" % (t.split(":")[0], t.split(":")[2], t.split(":")[3]) for t in tokens]
 
 
 def proj_report(tokens, open_fns=()):
     out = {}
     for t in tokens:
-        p = t.split(":")
+        p = t.split("/")[-1].split(":")
         if t.startswith("?"):
             out["?"] = t
         elif p[0] == "X":
@@ -448,10 +454,11 @@ def proj_report(tokens, open_fns=()):
 def proj_graph(tokens):
     """what graph_add_node builds from the shown ENTRY/EXIT sequence: {path: calls}"""
     out = {}
-    cur = ()
-    dead = False
+    curs, deads = {}, {}             # one cursor per task (struct uftrace_task_graph)
     for t in tokens:
-        p = t.split(":")
+        task = t.split("/")[0] if "/" in t else ""
+        p = t.split("/")[-1].split(":")
+        cur, dead = curs.get(task, ()), deads.get(task, False)
         if t.startswith("?"):
             out["?"] = t
         elif p[0] == "E":
@@ -466,6 +473,7 @@ def proj_graph(tokens):
                 dead = True          # tg->node = root->parent = NULL
             else:
                 cur = cur[:-1]
+        curs[task], deads[task] = cur, dead
     return out
 
 
@@ -738,6 +746,7 @@ def rec_opts(rng, durs, boundary_ok):
 def to_ropts(o):
     r = ROpts()
     r.F, r.N, r.D, r.t = list(o.F), list(o.N), o.D, o.t
+    r.T = [(fn, list(acts)) for fn, acts in o.T]
     return r
 
 
@@ -779,6 +788,25 @@ def record_vs_replay(ctx, uft, root, nforest, boundary_ok):
             o = mcgen.Opts()
             o.t = rng.choice(sorted(durs))
             cases.append({"opts": o, "script": script, "kind": kind, "forest": i, "role": "boundary", "durs": durs})
+        # trace_off / trace_on triggers at both times (observation F-C07-TRACEOFF-FLUSH, see run())
+        if i % 3 == 0:
+            frecs = []
+            st2, now2 = [], 0
+            for op in ops:
+                if op[0] == "T":
+                    now2 = op[1]
+                elif op[0] == "E":
+                    frecs.append(("E", len(st2), op[1], now2))
+                    st2.append(op[1])
+                else:
+                    frecs.append(("X", len(st2) - 1, st2.pop(), now2))
+            ro = rand_switch_opts(rng, frecs)
+            o = mcgen.Opts()
+            o.F, o.N, o.D, o.t = list(ro.F), list(ro.N), ro.D, None
+            o.T = [(fn, [a for a in acts if a[0] in ("trace_on", "trace_off")]) for fn, acts in ro.T]
+            o.T = [(fn, acts) for fn, acts in o.T if acts]
+            if o.T:
+                cases.append({"opts": o, "script": script, "kind": kind, "forest": i, "role": "traceoff", "durs": durs})
     mcheck.run_cases(ctx, exe, sizes, cases)
     # libmcount pre-allocates a second shmem buffer per thread that lib/h1.py does not know about: unlink it too
     for c in cases:
@@ -817,6 +845,185 @@ def record_vs_replay(ctx, uft, root, nforest, boundary_ok):
         c["recorded"] = mcheck.stream(c["impl"])
         c["plain"] = plain[c["forest"]]
     return jobs, ""
+
+
+# ---------------------------------------------------------------- several tasks --------
+def multi_tasks(rng):
+    """2-3 threads, each a small call forest; all time stamps distinct, interleaved at random"""
+    nt = rng.choice([2, 2, 3])
+    tasks = []
+    for _ in range(nt):
+        ops = mcgen.rand_forest(rng, max_calls=rng.choice([4, 8, 14]), max_depth=rng.choice([2, 3, 4]), zero_dur=0.0)
+        recs, stack = [], []
+        for op in ops:
+            if op[0] == "E":
+                recs.append(["E", len(stack), op[1]])
+                stack.append(op[1])
+            elif op[0] == "X":
+                fn = stack.pop()
+                recs.append(["X", len(stack), fn])
+        tasks.append(recs)
+    pos = [0] * nt
+    now = 1000
+    out = [[] for _ in range(nt)]
+    while any(pos[i] < len(tasks[i]) for i in range(nt)):
+        i = rng.choice([k for k in range(nt) if pos[k] < len(tasks[k])])
+        # run of records of one task, as a scheduler would give it
+        for _ in range(rng.randint(1, 4)):
+            if pos[i] >= len(tasks[i]):
+                break
+            typ, dep, fn = tasks[i][pos[i]]
+            now += rng.choice([1, 2, 5, 10, 11, 30])
+            out[i].append((typ, dep, fn, now))
+            pos[i] += 1
+    return out
+
+
+def merged(tasks):
+    return sorted(((r[3], i, r) for i, t in enumerate(tasks) for r in t))
+
+
+def multi_switch_opts(rng, tasks):
+    """like rand_switch_opts, on the time-ordered union of the tasks: the switch is global, so a trace_off in one
+    thread makes the calls of the others return while tracing is off"""
+    ents = [(k, i, r) for k, (t, i, r) in enumerate(merged(tasks)) if r[0] == "E"]
+    o = ROpts()
+    if len(ents) < 3:
+        return o
+    k = rng.randrange(0, len(ents) - 1)
+    _, i_off, r_off = ents[k]
+    holders = set()
+    for i, t in enumerate(tasks):
+        stack = []
+        for r in t:
+            if r[3] >= r_off[3]:
+                break
+            if r[0] == "E":
+                stack.append(r[2])
+            else:
+                stack.pop()
+        holders |= set(stack)
+    holders.add(r_off[2])
+    later = [r for _, _, r in ents[k + 1:] if r[2] != r_off[2]]
+    o.T = [(r_off[2], [("trace_off", None)])]
+    if later:
+        o.T.append((rng.choice(later)[2], [("trace_on", None)]))
+    if rng.random() < 0.15:
+        o.trace_off = True
+    allf = sorted({r[2] for t in tasks for r in t})
+    hl = sorted(holders)
+
+    def pick():
+        return rng.choice(hl if rng.random() < 0.75 else allf)
+    kind = rng.random()
+    if kind < 0.45:
+        o.F = sorted({pick() for _ in range(rng.randint(1, 2))})
+    if 0.3 < kind < 0.6:
+        o.N = [f for f in [pick()] if f not in o.F]
+    if rng.random() < 0.5:
+        o.D = rng.randint(1, 4)
+    if rng.random() < 0.2:
+        o.t = rng.choice([5, 10, 20])
+    o.no_merge = rng.random() < 0.3
+    return o
+
+
+def write_dir_multi(d, tasks):
+    tl = [D.Task(TID0 + i, [D.Rec(t, typ, dep, addr(fn)) for typ, dep, fn, t in recs], pid=TID0) for i, recs in enumerate(tasks)]
+    dd = D.DataDir(SYMS, tl, sess_time=500)
+    sym = ["# symbols: %d" % (NFN + 1), "# path name: " + D.EXE, "# build-id: "]
+    for rel, size, name in SYMS:
+        sym.append("%016x %08x T %s" % (rel, size, name))
+    sym.append("%016x %08x T _start" % (0x100 * NFN, 0x40))
+    dd.write(d, overrides={"prog.sym": ("\n".join(sym) + "\n").encode()})
+
+
+def run_cmds_multi(uft, d, o):
+    base = cli_args(o)
+    res = {}
+    rc, out, err = D.run_uftrace(uft, "replay", d, base + ["-f", "duration,tid,time"] + (["--no-merge"] if o.no_merge else []), timeout=30)
+    res["replay"] = (rc, parse_replay(out, True), err)
+    rc, out, err = D.run_uftrace(uft, "script", d, base + ["-S", SCRIPT], timeout=30)
+    res["script"] = (rc, parse_script(out, True), err)
+    rc, out, err = D.run_uftrace(uft, "dump", d, base + ["--chrome"], timeout=30)
+    res["dump"] = (rc, parse_chrome(out, True), err)
+    rc, out, err = D.run_uftrace(uft, "report", d, base + ["-f", "call"], timeout=30)
+    res["report"] = (rc, parse_report(out), err)
+    rc, out, err = D.run_uftrace(uft, "graph", d, base + ["-f", "total,self"], timeout=30)
+    res["graph"] = (rc, parse_graph(out), err)
+    rc, out, err = D.run_uftrace(uft, "dump", d, base, timeout=30)
+    res["dumpraw"] = (rc, parse_dumpraw(out, True), err)
+    return res
+
+
+def evaluate_multi(ctx, uft, cases, root):
+    def one(ic):
+        i, case = ic
+        d = os.path.join(root, "m%d" % i)
+        write_dir_multi(d, case["tasks"])
+        r = run_cmds_multi(uft, d, case["opts"])
+        for f in os.listdir(d):
+            os.unlink(os.path.join(d, f))
+        os.rmdir(d)
+        return r
+    with ThreadPoolExecutor(16) as ex:
+        impl = list(ex.map(one, enumerate(cases)))
+    mlines = []
+    for case in cases:
+        tk = " | ".join(" ".join(toks(t)) for t in case["tasks"])
+        mlines += model_cfg(case["opts"]) + ["RUNM %s %s" % (c, tk) for c in COMMANDS]
+    mout = [l for l in C.run_model("C07", mlines) if l.strip() != "ok"]
+    for k, (case, im) in enumerate(zip(cases, impl)):
+        case["impl"] = im
+        case["model"] = {c: ([] if mout[k * len(COMMANDS) + j].strip() == "-" else mout[k * len(COMMANDS) + j].split())
+                         for j, c in enumerate(COMMANDS)}
+    return cases
+
+
+def by_task(tokens):
+    out = {}
+    for t in tokens:
+        out.setdefault(t.split("/")[0], []).append(t)
+    return out
+
+
+def assess_multi(case):
+    o, im, mo = case["opts"], case["impl"], case["model"]
+    mism, bad = [], []
+    for cmd in COMMANDS:
+        rc, parsed, err = im[cmd]
+        if rc != 0:
+            bad.append((cmd, "exit status %s: %s" % (rc, err[-200:])))
+    if bad:
+        return mism, bad
+    if im["replay"][1] != mo["replay"]:
+        mism.append(("replay", im["replay"][1][:14], mo["replay"][:14]))
+    if im["script"][1] != mo["script"]:
+        mism.append(("script", im["script"][1][:14], mo["script"][:14]))
+    if im["dump"][1] != proj_calls(mo["dump"]):
+        mism.append(("dump --chrome", im["dump"][1][:14], proj_calls(mo["dump"])[:14]))
+    if im["dumpraw"][1] != proj_calls(mo["dumpraw"]):
+        mism.append(("dump", im["dumpraw"][1][:14], proj_calls(mo["dumpraw"])[:14]))
+    if im["report"][1] != proj_report(mo["report"]):
+        mism.append(("report", im["report"][1], proj_report(mo["report"])))
+    g = im["graph"][1]
+    if isinstance(g, str) or g != proj_graph(mo["graph"]):
+        mism.append(("graph", str(g)[:300], str(proj_graph(mo["graph"]))[:300]))
+    ref = im["script"][1]
+    if im["replay"][1] != ref:
+        bad.append(("replay-vs-script", im["replay"][1][:14], ref[:14]))
+    if im["dump"][1] != proj_calls(ref):
+        bad.append(("dump--chrome-vs-script", im["dump"][1][:14], proj_calls(ref)[:14]))
+    if im["report"][1] != proj_report(ref):
+        bad.append(("report-vs-script", im["report"][1], proj_report(ref)))
+    if not isinstance(g, str) and g != proj_graph(ref):
+        bad.append(("graph-vs-script", str(g)[:300], str(proj_graph(ref))[:300]))
+    # raw dump walks the files one after the other: comparable per task, and only when no global switch and no
+    # look-ahead filter is involved
+    if not has_switch(o) and not o.t and not o.C and not any(a == "time" for _, acts in o.T for a, _ in acts):
+        if by_task(im["dumpraw"][1]) != by_task(proj_calls(ref)):
+            bad.append(("dump-vs-script", im["dumpraw"][1][:14], proj_calls(ref)[:14]))
+    return mism, bad
 
 
 # ---------------------------------------------------------------- run -----------------
@@ -956,6 +1163,41 @@ def run(ctx):
                     "case": case_json(case), "model_input": model_queries(case)[0][:6],
                     "theorem": "c07_commands_agree / c07_replay_refines_spec (Props/C07.lean); correspondence Fstack",
                 }, no_failing_input=not bad)
+    # ---- several tasks: the trace switch is global
+    nmulti = 45 if ctx.tier == "quick" else 2500
+    mcases = []
+    for i in range(nmulti):
+        tasks = multi_tasks(rng)
+        mcases.append({"tasks": tasks, "opts": multi_switch_opts(rng, tasks), "idx": len(mcases)})
+        allr = [r for _, _, r in merged(tasks)]
+        o2 = rand_ropts(rng, [], core=(i % 2 == 0), present={r[2] for r in allr})
+        o2.plt, o2.no_libcall, o2.r = [], False, None
+        mcases.append({"tasks": tasks, "opts": o2, "idx": len(mcases)})
+    mstat = {"directories": 0, "tasks": 0, "switch_option_sets": 0, "failures": 0, "global_switch_crosses_tasks": 0}
+    for lo in range(0, len(mcases), 600):
+        for case in evaluate_multi(ctx, uft, mcases[lo:lo + 600], root):
+            o = case["opts"]
+            evaluations += len(COMMANDS)
+            distinct.add(hash((json.dumps(o.describe(), sort_keys=True), str(case["tasks"]))))
+            mstat["directories"] += 1
+            mstat["tasks"] += len(case["tasks"])
+            mstat["switch_option_sets"] += bool(has_switch(o))
+            if has_switch(o):
+                offf = {fn for fn, acts in o.T if any(a == "trace_off" for a, _ in acts)}
+                owners = {i for i, t in enumerate(case["tasks"]) for r in t if r[2] in offf}
+                mstat["global_switch_crosses_tasks"] += len(owners) < len(case["tasks"])
+            mism, bad = assess_multi(case)
+            disagreements += bool(mism)
+            monitor_fail += bool(bad)
+            mstat["failures"] += bool(mism or bad)
+            if (mism or bad) and replays < 4:
+                replays += 1
+                C.violation(ctx, "multi%d" % case["idx"], {
+                    "kind": "property-violated-on-implementation" if bad else "model-code-disagreement",
+                    "what": [list(map(str, b)) for b in bad], "model_vs_impl": [list(map(str, m)) for m in mism][:3],
+                    "tasks": [toks(t) for t in case["tasks"]], "opts": o.describe(), "cli": cli_args(o),
+                    "theorem": "c07_commands_agree_traceoff (one task); several tasks: correspondence Fstack (cmdOutM)",
+                }, no_failing_input=not bad)
     # ---- finding F-C07-NOLIBCALL (repaired in /repo; reported again if the tree under test behaves like the
     # pre-fix model): replay/script skipped a --no-libcall PLT record before the filters, the others after
     if nolib_hits:
@@ -979,7 +1221,9 @@ def run(ctx):
     rvr_n = 40 if ctx.tier == "quick" else 1500
     s4 = [f for f in C.known_findings("C07") if f["id"] == "S4"]
     jobs, log = record_vs_replay(ctx, uft, root, rvr_n, boundary_ok=bool(s4))
-    rvr = {"pairs": 0, "equal": 0, "boundary_cases": 0, "boundary_differs": 0, "filtered_something": 0}
+    rvr = {"pairs": 0, "equal": 0, "boundary_cases": 0, "boundary_differs": 0, "filtered_something": 0,
+           "trace_on_off_cases": 0, "trace_on_off_differs": 0}
+    tof = [f for f in C.known_findings("C07") if f["id"] == "F-C07-TRACEOFF-FLUSH"]
     if jobs is None:
         C.violation(ctx, "build-h1", {"kind": "harness-build-failed", "log": log[-3000:]}, True)
     else:
@@ -991,8 +1235,25 @@ def run(ctx):
             models_ok = c["impl_cmp"] == c["model_cmp"] and rep == c["replay_model"]
             if c["role"] == "boundary":
                 rvr["boundary_cases"] += 1
+            if c["role"] == "traceoff":
+                rvr["trace_on_off_cases"] += 1
             if rc == 0 and rep == c["recorded"] and models_ok:
                 rvr["equal"] += 1
+                continue
+            if c["role"] == "traceoff" and rc == 0 and models_ok:
+                # trace_on / trace_off at record time is outside the proved class (c07_record_eq_replay is about
+                # -F/-N/-D/-t). Known difference on the real code: the lazily written ENTRY records of the open callers
+                # are lost when the function that switches tracing off is itself filtered out (depth, notrace),
+                # proposed_fixes/C07-TRACEOFF-FLUSH.diff; both sides match their models here, so this is counted, and
+                # reported as KNOWN-FINDING once listed
+                rvr["trace_on_off_differs"] += 1
+                it = iter(rep)
+                flush_shape = all(any(x == y for y in it) for x in c["recorded"]) and \
+                    all(t.startswith("E") for t in rep if t not in c["recorded"])
+                rvr["trace_on_off_lost_entries_shape"] = rvr.get("trace_on_off_lost_entries_shape", 0) + flush_shape
+                if tof and flush_shape:
+                    C.known(ctx, tof[0], "F-C07-TRACEOFF-FLUSH record -T f@trace_off loses the ENTRY records of the open "
+                                         "callers when f itself is filtered out; replay with the same options shows them")
                 continue
             if c["role"] == "boundary" and rc == 0 and models_ok:
                 # shape of S4: a call ran exactly the threshold; both sides do what their models say
@@ -1032,7 +1293,7 @@ def run(ctx):
                 "analysed by replay, script, dump --chrome, report, graph and raw dump (6 runs). Then H1->H3: forests recorded by the "
                 "real libmcount (-pg or -finstrument-functions hook) with and without -F/-N/-D/-t; the unfiltered recording is replayed "
                 "with the option. distinct = distinct (options, records)" % nprobe,
-        "input_distribution": dist, "trace_on_off_class": swstat, "selection_outcomes": sel, "nolibcall_model_variant_matched": variants,
+        "input_distribution": dist, "trace_on_off_class": swstat, "several_tasks": mstat, "selection_outcomes": sel, "nolibcall_model_variant_matched": variants,
         "model_code_disagreements": disagreements, "monitor_failures_on_impl": monitor_fail,
         "finding_nolibcall_cases": len(nolib_hits), "record_vs_replay": rvr, "samples": samples, "exhaustive": False,
     })
@@ -1043,6 +1304,11 @@ def run(ctx):
         "calls or are cut by -r (their 'remaining functions' accounting ignores the filters: C08/C15 territory)",
         "raw `uftrace dump` reads the task files without the look-ahead, so -t / time= / -C do not apply to it (modelled as coded, "
         "theorem c07_dumpraw_agrees has the hypothesis); it is compared with the other commands only without those options",
+        "record-vs-replay with trace_on/trace_off triggers is outside the proved class (c07_record_eq_replay: -F/-N/-D/-t) and the "
+        "two times differ on the real code in several ways (ENTRY records of open callers lost when the trace_off function is "
+        "itself filtered out: proposed_fixes/C07-TRACEOFF-FLUSH.diff; the -D budget is used up by calls entered while tracing is "
+        "off at record time but not at replay time; a -N function's trace_off trigger fires at record time only). Both sides match "
+        "their Lean models in these cases; they are counted in coverage.record_vs_replay.trace_on_off_differs, not failed",
         "record-vs-replay, -t boundary (finding S4, theorem c07_time_boundary_witness: record time keeps '> t', replay '>= t'): "
         "while S4 is listed as open in known_findings.json, -t values equal to a call's duration are generated and a difference of "
         "exactly that shape (both sides match their models) is reported as KNOWN-FINDING; otherwise such values are kept out of the "
